@@ -66,6 +66,8 @@ def cases(tier, seed):
     for tab, t0 in itertools.product(["S_zdip", "T_ship_gas"], [1e-3, 5.0]):
         out.append({"cls": "single", "table": tab, "p_f": 4000.0, "p_i": 8000.0, "sched": "scalar", "tier": tier, "t0": t0})
     out.append({"cls": "ideal", "table": None, "p_f": 4000.0, "p_i": 8000.0, "sched": "scalar", "tier": tier, "t0": 5.0})
+    for tab in ("S_zdip", "T_ship_gas"):  # one dict of arrays wrapped twice
+        out.append({"cls": "single", "table": tab, "p_f": 4000.0, "p_i": 8000.0, "sched": "scalar", "tier": tier, "reuse_dict": True})
     if tier == "thorough":
         for tab, r in itertools.product(synth, ratios):
             if r * 3000.0 >= 10:
@@ -89,6 +91,18 @@ def evaluate(case):
         p_min = tables.table_range(case["table"])[0] if case["table"] else 0.0
         sched = sim.schedule(case["sched"], nt, case["p_f"], case["p_i"], p_min)
         res = sim.make_reservoir(cls, nx, case["p_f"], case["p_i"], case["table"])
+        if case.get("reuse_dict"):
+            # the caller keeps ONE dict of arrays and wraps it twice (e.g. for two initial pressures): the second wrapper
+            # must be what a fresh table gives
+            import warnings  # noqa: PLC0415
+
+            from bluebonnet.flow import FlowProperties  # noqa: PLC0415
+
+            shared = tables.table(case["table"])
+            with warnings.catch_warnings():
+                warnings.simplefilter("ignore")
+                FlowProperties(shared, 0.9 * case["p_i"])
+                res.fluid = FlowProperties(shared, case["p_i"])
         sim.simulate(res, t, sched)
         rf = np.asarray(res.recovery_factor(), dtype=float).copy()
         if rf[0] != 0.0:
